@@ -9,13 +9,20 @@ def _safe(fn):
         return f"EXC:{type(e).__name__}"
 
 
-def cell_snapshot(cell, with_formula=True, with_formatted=True):
+def _bg(cell):
+    img = cell.style.bg_image
+    return None if img is None else [img.filename, len(img.data)]
+
+
+def cell_snapshot(cell, with_formula=True, with_formatted=True, with_image=False):
     cls = type(cell).__name__
     d = {"cls": cls, "value": repr(_safe(lambda: cell.value))}
     if with_formula:
         d["formula"] = _safe(lambda: cell.formula)
     if with_formatted:
         d["formatted"] = _safe(lambda: cell.formatted_value)
+    if with_image:
+        d["bg_image"] = _safe(lambda: _bg(cell))
     d["merge"] = [getattr(cell, "is_merged", None), _safe(lambda: cell.size), _safe(lambda: cell.rect), _safe(lambda: cell.merge_range)]
     if cls in ("RichTextCell", "BulletedTextCell"):
         d["bullets"] = _safe(lambda: cell.bullets)
